@@ -39,7 +39,8 @@ Ltac same_branch :=
 
 Theorem divide_keys_between : forall kl tl kr tr, bytes_ok kr -> kref_cmp kl tl kr tr = Lt ->
   exists d dt, divide_keys kl tl kr tr = Ok (d, dt) /\
-               kref_cmp kl tl d dt <> Gt /\ kref_cmp d dt kr tr = Lt /\ (length d <= length kl)%nat.
+               kref_cmp kl tl d dt <> Gt /\ kref_cmp d dt kr tr = Lt /\ (length d <= length kl)%nat /\
+               (dt = tl \/ dt = 0).
 Proof.
   intros kl tl kr tr Hb Hlt. unfold divide_keys. rewrite Hlt.
   set (s := common_prefix kl kr).
@@ -70,7 +71,7 @@ Proof.
   assert (C2 : lex_cmp (firstn s kl ++ [x + 1]) kr = Lt).
   { rewrite Skr at 1. rewrite lex_cmp_app_prefix. cbn [lex_cmp].
     assert (E : (x + 1 ?= y) = Lt) by (apply N.compare_lt_iff; lia). now rewrite E. }
-  unfold kref_cmp. rewrite C1, C2. repeat split; try discriminate.
+  unfold kref_cmp. rewrite C1, C2. repeat split; try discriminate; auto.
   rewrite app_length, firstn_length. cbn [length]. lia.
 Qed.
 
